@@ -45,7 +45,7 @@ def main():
         finally:
             sh(["git", "-C", "/repo", "worktree", "remove", "--force", wt])
         print(rows[-1][:4]); sys.stdout.flush()
-    res = os.path.join(SEEDED, "RESULTS.md")
+    res = os.environ.get("SEEDED_RESULTS", os.path.join(SEEDED, "RESULTS.md"))
     old = {}
     if only and os.path.exists(res):
         for line in open(res):
